@@ -2,12 +2,14 @@ package main
 
 import (
 	"context"
+	"encoding/binary"
 	"errors"
 	"fmt"
 	"sort"
 	"sync"
 	"time"
 
+	"github.com/aperturerobotics/bifrost/crypto"
 	"github.com/aperturerobotics/bifrost/hash"
 	"github.com/aperturerobotics/bifrost/peer"
 	"github.com/aperturerobotics/bifrost/pubsub"
@@ -48,10 +50,28 @@ type symFrom struct {
 	k    int
 }
 
+// symAtt is Signature.pub_key: 0 nothing, 1 the marshalled public key of key k, 2 bytes that are not a key
+type symAtt struct {
+	kind int
+	k    int
+}
+
+func (a symAtt) term() string {
+	switch a.kind {
+	case 1:
+		return hx.App("KeyOf", hx.Nat(a.k))
+	case 2:
+		return hx.App("BadKey", hx.Nat(a.k))
+	default:
+		return "NoKey"
+	}
+}
+
 type symMsg struct {
 	from  symFrom
 	body  symBody
 	sig   symSig
+	att   symAtt
 	class string // generator class, for the oracle and the histogram
 }
 
@@ -76,7 +96,9 @@ func (f symFrom) term() string {
 	return hx.App("Peer", hx.Nat(f.k))
 }
 
-func (m symMsg) term() string { return hx.App("SMsg", m.from.term(), m.body.term(), m.sig.term()) }
+func (m symMsg) term() string {
+	return hx.App("SMsg", m.from.term(), m.body.term(), m.sig.term(), m.att.term())
+}
 
 // bytesOf is the real SignedMsg.Data of a symbolic body: a function of the
 // term only, so that equal terms are equal byte strings and different terms
@@ -175,14 +197,29 @@ func (r *realizer) real(m symMsg) *peer.SignedMsg {
 		}
 	} else {
 		ht := hash.HashType_HashType_SHA256
-		if (m.sig.k+len(m.sig.ctx))%3 == 0 {
+		switch (m.sig.k + len(m.sig.ctx)) % 3 {
+		case 0:
 			ht = hash.HashType_HashType_BLAKE3
+		case 2:
+			ht = hash.HashType_HashType_SHA1
 		}
 		s, err := peer.NewSignature(string(m.sig.ctx), r.keys[m.sig.k].priv, ht, bytesOf(m.sig.body), false)
 		if err != nil {
 			panic(err)
 		}
 		out.Signature = s
+	}
+	if out.Signature != nil {
+		switch m.att.kind {
+		case 1:
+			pk, err := crypto.MarshalPublicKey(r.keys[m.att.k].priv.GetPublic())
+			if err != nil {
+				panic(err)
+			}
+			out.Signature.PubKey = pk
+		case 2:
+			out.Signature.PubKey = []byte{0xff, 0x01, byte(m.att.k)}
+		}
 	}
 	return out
 }
@@ -213,8 +250,47 @@ func honest(k int, data []byte, ch string, variant int) symMsg {
 
 func (g *gen27) pickCh() string { return g.chans[g.c.Rng.Intn(len(g.chans))] }
 
+// attach gives the message a random Signature.pub_key: none, the signing key, the key of the
+// claimed sender, another key, or (only if allowBad) bytes that are not a key.
+func (g *gen27) attach(m symMsg, allowBad bool) symMsg {
+	rng := g.c.Rng
+	if m.sig.none && m.sig.n%5 == 0 {
+		return m // no signature object at all
+	}
+	signer := m.from.k
+	if !m.sig.none {
+		signer = m.sig.k
+	}
+	switch x := rng.Intn(100); {
+	case x < 50:
+	case x < 68:
+		m.att = symAtt{1, signer}
+	case x < 80:
+		m.att = symAtt{1, m.from.k}
+	case x < 92:
+		m.att = symAtt{1, rng.Intn(4)}
+	default:
+		if allowBad {
+			m.att = symAtt{2, rng.Intn(50)}
+		}
+	}
+	return m
+}
+
 // forged returns one message of a random forgery class, built around an honest one.
 func (g *gen27) forged() symMsg {
+	if g.c.Rng.Intn(14) == 0 {
+		// an otherwise honest message whose attached public key does not parse
+		m := honest(g.c.Rng.Intn(4), g.data("f"), g.pickCh(), g.c.Rng.Intn(4))
+		m.att = symAtt{2, g.c.Rng.Intn(50)}
+		m.class = "bad-attached-key"
+		return m
+	}
+	b := g.forgedBase()
+	return g.attach(b, b.class != "unsubscribed")
+}
+
+func (g *gen27) forgedBase() symMsg {
 	rng := g.c.Rng
 	k := rng.Intn(4)
 	ch := g.pickCh()
@@ -344,7 +420,7 @@ func c27(c *hx.Ctx) {
 	for i := 0; i < nVerify; i++ {
 		var m symMsg
 		if c.Rng.Intn(3) == 0 {
-			m = honest(c.Rng.Intn(4), g.data("v"), g.pickCh(), c.Rng.Intn(4))
+			m = g.attach(honest(c.Rng.Intn(4), g.data("v"), g.pickCh(), c.Rng.Intn(4)), false)
 			if c.Rng.Intn(6) == 0 {
 				m.body.data, m.sig.body.data = []byte{}, []byte{}
 			}
@@ -413,7 +489,7 @@ func c27(c *hx.Ctx) {
 		for j := 0; j < n; j++ {
 			switch x := c.Rng.Intn(10); {
 			case x < 4:
-				sent = append(sent, honest(c.Rng.Intn(4), gg.data("h"), gg.pickCh(), c.Rng.Intn(4)))
+				sent = append(sent, gg.attach(honest(c.Rng.Intn(4), gg.data("h"), gg.pickCh(), c.Rng.Intn(4)), false))
 			case x < 5 && len(sent) > 0:
 				m := sent[c.Rng.Intn(len(sent))]
 				if m.class == "honest" {
@@ -433,7 +509,7 @@ func c27(c *hx.Ctx) {
 				continue
 			}
 			usedEmpty[fmt.Sprint(k, ch)] = true
-			hm := honest(k, []byte{}, ch, []int{0, 1, 1, 2}[c.Rng.Intn(4)])
+			hm := gg.attach(honest(k, []byte{}, ch, []int{0, 1, 1, 2}[c.Rng.Intn(4)]), false)
 			hm.class = "honest-empty"
 			pos := c.Rng.Intn(len(sent) + 1)
 			ins := []symMsg{gg.forged(), hm}
@@ -611,6 +687,9 @@ func c27(c *hx.Ctx) {
 				}
 			}
 		}
+		for _, u := range res.unsound {
+			c.Failf("c27-not-signed-by-reported-sender", desc, "%s", u)
+		}
 		if len(res.backToSender) > 0 {
 			c.Failf("c27-sent-back-to-previous-hop", desc, "packets %v were written back to the peer they came from", res.backToSender)
 		}
@@ -630,6 +709,7 @@ type node27Result struct {
 	forwarded    map[int][]int
 	backToSender []int
 	timeout      bool
+	unsound      []string // raw-crypto check of deliveries and forwards
 }
 
 func (r *node27Result) descDelivered() []string {
@@ -732,7 +812,14 @@ func runNode27(r *realizer, subs map[string]int, order []string, pcs [][2]any, m
 			pk.Publish = append(pk.Publish, reals[i+1])
 			i++
 		}
-		if err := peers[0].send(pk); err != nil {
+		var err error
+		if i%5 == 2 {
+			// the same packet with unknown protobuf fields in every SignedMsg and in the Packet
+			err = sendRawWithUnknownFields(peers[0], pk)
+		} else {
+			err = peers[0].send(pk)
+		}
+		if err != nil {
 			break
 		}
 	}
@@ -740,7 +827,11 @@ func runNode27(r *realizer, subs map[string]int, order []string, pcs [][2]any, m
 	markerIdx := len(msgs) - 1
 	indexOf := func(sm *peer.SignedMsg) int {
 		for i, x := range reals {
-			if x.EqualVT(sm) {
+			// field by field: unknown protobuf fields of the received encoding are not part of the message
+			if x.GetFromPeerId() == sm.GetFromPeerId() && string(x.GetData()) == string(sm.GetData()) &&
+				string(x.GetSignature().GetSigData()) == string(sm.GetSignature().GetSigData()) &&
+				x.GetSignature().GetHashType() == sm.GetSignature().GetHashType() &&
+				string(x.GetSignature().GetPubKey()) == string(sm.GetSignature().GetPubKey()) {
 				return i
 			}
 		}
@@ -827,6 +918,45 @@ func runNode27(r *realizer, subs map[string]int, order []string, pcs [][2]any, m
 	for _, d := range agg {
 		res.delivered = append(res.delivered, *d)
 	}
+	// soundness straight from the property text, with the keys embedded in the REPORTED sender ids:
+	// every handler invocation (from, channel of the subscription, data) must be backed by a received
+	// SignedMsg whose signature verifies for the key of `from` over an inner message with that channel
+	// and data under prefix+channel; every forwarded SignedMsg must verify for its own from_peer_id
+	backed := func(from peer.ID, ch string, data []byte) bool {
+		pub, err := from.ExtractPublicKey()
+		if err != nil {
+			return false
+		}
+		for _, sm := range reals {
+			in := &pubmessage.PubMessageInner{}
+			if in.UnmarshalVT(sm.GetData()) != nil || in.GetChannel() != ch || string(in.GetData()) != string(data) {
+				continue
+			}
+			if ok, err := sm.GetSignature().VerifyWithPublic(pubCtxPrefix+ch, pub, sm.GetData()); ok && err == nil {
+				return true
+			}
+		}
+		return false
+	}
+	mu.Lock()
+	for _, rc := range recs {
+		if !backed(rc.from, rc.ch, rc.data) {
+			res.unsound = append(res.unsound, fmt.Sprintf("handler on %q called with from=%s data=%q: no received message carries a signature of that peer over that channel and data", rc.ch, rc.from.String(), rc.data))
+		}
+	}
+	mu.Unlock()
+	for _, p := range []int{0, 1, 2} {
+		pk, _ := peers[p].snapshot()
+		for _, x := range pk {
+			for _, sm := range x.GetPublish() {
+				in := &pubmessage.PubMessageInner{}
+				from, err := peer.IDB58Decode(sm.GetFromPeerId())
+				if err != nil || in.UnmarshalVT(sm.GetData()) != nil || !backed(from, in.GetChannel(), in.GetData()) {
+					res.unsound = append(res.unsound, fmt.Sprintf("packet forwarded to peer %d claims from=%s: its signature does not verify for that peer over its channel", p, sm.GetFromPeerId()))
+				}
+			}
+		}
+	}
 	sort.Slice(res.delivered, func(a, b int) bool {
 		x, y := res.delivered[a], res.delivered[b]
 		if x.first != y.first {
@@ -835,4 +965,27 @@ func runNode27(r *realizer, subs map[string]int, order []string, pcs [][2]any, m
 		return x.ch < y.ch
 	})
 	return res
+}
+
+// sendRawWithUnknownFields writes the packet as a hand-made frame: every SignedMsg and the Packet
+// itself carry an unknown field (number 15, varint).
+func sendRawWithUnknownFields(rp *rawPeer, pk *floodsub.Packet) error {
+	var body []byte
+	for _, sm := range pk.GetPublish() {
+		b, err := sm.MarshalVT()
+		if err != nil {
+			return err
+		}
+		b = append(b, 0x78, 0x01)
+		body = append(body, 0x12)
+		body = binary.AppendUvarint(body, uint64(len(b)))
+		body = append(body, b...)
+	}
+	body = append(body, 0x78, 0x02)
+	frame := make([]byte, 4, 4+len(body))
+	binary.LittleEndian.PutUint32(frame, uint32(len(body)))
+	frame = append(frame, body...)
+	_ = rp.conn.SetWriteDeadline(time.Now().Add(5 * time.Second))
+	_, err := rp.conn.Write(frame)
+	return err
 }
